@@ -389,7 +389,26 @@ func exhaustive(run *vc.Run) {
 		rc.Distinct(fmt.Sprintf("dupbase/%d", bi))
 		rc.flush(run)
 	}
+	// E. the same bases embedded in a result type one of whose views renders a nested result type through a
+	// sibling type that no attribute refers to (what expr.Project produces): the copy must own those too
+	for bi, base := range bases {
+		for variant := 0; variant < 4; variant++ {
+			gv := withViewOnly(base, variant)
+			for _, api := range []string{"Dup", "DupAtt"} {
+				doDupEqual(rc, Witness{G: gv, API: api})
+				for _, mc := range viewOnlyClasses {
+					doDupMutation(rc, Witness{G: gv, API: api, Class: mc})
+				}
+			}
+			rc.Count("dup_graphs_with_view_only_types", 1)
+		}
+		rc.Distinct(fmt.Sprintf("dupbase-viewonly/%d", bi))
+		rc.flush(run)
+	}
 }
+
+// viewOnlyClasses are the copy mutations that can reach memory behind a view.
+var viewOnlyClasses = []string{"view-rename", "view-edit-attributes", "rename-attribute", "validation-replace-fields", "meta-set-delete-key", "user-type-rename", "user-type-set-attribute", "description"}
 
 // ---------------------------------------------------------------- names containing the hash's delimiters
 
@@ -883,6 +902,14 @@ func randomCase(run *vc.Run, i int, rc *rec, hashes *[8]string, stable *[8]bool)
 	doDupEqual(rc, Witness{G: g, API: api[i%2], observe: i < 300})
 	for mi, mc := range mutationClasses {
 		doDupMutation(rc, Witness{G: g, API: api[(i+mi)%2], Class: mc})
+	}
+	if i%4 == 0 {
+		gv := withViewOnly(g, i/4)
+		doDupEqual(rc, Witness{G: gv, API: api[(i/4)%2]})
+		for mi, mc := range viewOnlyClasses {
+			doDupMutation(rc, Witness{G: gv, API: api[(i/4+mi)%2], Class: mc})
+		}
+		rc.Count("dup_graphs_with_view_only_types", 1)
 	}
 }
 
